@@ -1205,7 +1205,6 @@ func (s *Service) processRequest(m *nats.Msg, rtype, rname, method string, mh *M
 func (s *Service) queryEventExpire(v interface{}) {
 	qe := v.(*queryEvent)
 	qe.sub.Drain()
-	s.runWith(qe.r.Group(), func() {
-		qe.cb(nil)
-	})
+	// Have the query listener make the final callback call and stop.
+	close(qe.done)
 }
